@@ -63,6 +63,8 @@ type Contract struct {
 	File         string
 	Line         int
 	NoSafety     bool // do not generate Go-level safety obligations (functional contract only)
+	NoTerm       bool // no termination obligation for recursive calls
+	CheckPre     bool // under nosafety: callee preconditions stay obligations
 	OnlySafety   bool
 	Unfold       int
 	Cases        *CaseSplit
@@ -132,6 +134,7 @@ type Engine struct {
 	addrTaken map[*types.Var]bool   // struct fields whose address is taken (&p.f)
 	Guarded   map[string]string     // "pkg.Type.field" -> name of the mutex field protecting it
 	GuardedProps map[string][]string
+	Owned     []*OwnedSpec          // ownership of struct fields by a set of functions (coverage.go)
 	Monitors  map[string]*Contract // "pkg.Type.mutexfield" -> invariant (Requires) and rely/guarantee (Ensures)
 	modCache  map[*types.Func]map[string]bool
 	Warnings  []string
@@ -376,9 +379,10 @@ var clauseKeywords = map[string]bool{
 	"onlysafety": true, "unfold": true, "assert": true, "cases": true, "partial": true,
 	"lemma": true, "induction": true, "uses": true, "hint": true, "reads": true, "guard": true,
 	"guarded": true, "unshared": true, "fnparam": true, "monitor": true, "stepinv": true,
-	"typing": true, "cut": true,
+	"typing": true, "cut": true, "noterm": true, "owned": true, "checkpre": true,
 }
 
+var ownedRe = regexp.MustCompile(`^(.+?)\s+by\s+(.+?)\s+for\s+(.+)$`)
 var usingRe = regexp.MustCompile(`^([A-Za-z_][A-Za-z0-9_]*)\s+using\s+([A-Za-z0-9_, ]+):\s*(.*)$`)
 var fnparamRe = regexp.MustCompile(`^([A-Za-z_][A-Za-z0-9_]*)\(([^)]*)\)\s*:\s*(.*)$`)
 var assertRe = regexp.MustCompile(`^(before|after)\s+([A-Za-z_][A-Za-z0-9_]*)#([0-9]+)\s*:\s*(.*)$`)
@@ -523,6 +527,30 @@ func (e *Engine) parseContracts(body, pkgPath, file string, line0 int) error {
 				e.GuardedProps[pkgPath+"."+fs[0]] = fs[4:]
 			}
 			cur, curLoop = nil, nil
+		case "owned":
+			// owned T.f, T.g by fn1, fn2 for PROP...
+			m := ownedRe.FindStringSubmatch(strings.TrimSpace(rc.text))
+			if m == nil {
+				return fmt.Errorf("%s:%d: owned T.f[, T.g...] by fn[, fn...] for PROP...", file, rc.line)
+			}
+			os := &OwnedSpec{PkgPath: pkgPath, Props: strings.Fields(m[3])}
+			for _, tf := range strings.Split(m[1], ",") {
+				tf = strings.TrimSpace(tf)
+				i := strings.Index(tf, ".")
+				if i < 0 {
+					return fmt.Errorf("%s:%d: owned: field must be written T.f", file, rc.line)
+				}
+				if os.TypeName != "" && os.TypeName != tf[:i] {
+					return fmt.Errorf("%s:%d: owned: one struct type per clause", file, rc.line)
+				}
+				os.TypeName = tf[:i]
+				os.Fields = append(os.Fields, tf[i+1:])
+			}
+			for _, o := range strings.Split(m[2], ",") {
+				os.Owners = append(os.Owners, strings.TrimSpace(o))
+			}
+			e.Owned = append(e.Owned, os)
+			cur, curLoop = nil, nil
 		case "spec":
 			sf, err := parseSpecFn(rc.text, pkgPath)
 			if err != nil {
@@ -560,6 +588,12 @@ func (e *Engine) parseContracts(body, pkgPath, file string, line0 int) error {
 				cur.Reads = append(cur.Reads, strings.Fields(strings.ReplaceAll(rc.text, ",", " "))...)
 			case "nosafety":
 				cur.NoSafety = true
+			case "checkpre":
+				// with `nosafety`: the preconditions of callees are still proof obligations
+				cur.CheckPre = true
+			case "noterm":
+				// termination of (mutual) recursion is not claimed: partial correctness only
+				cur.NoTerm = true
 			case "partial":
 				cur.Partial = true
 			case "unshared":
@@ -670,6 +704,11 @@ func (e *Engine) parseContracts(body, pkgPath, file string, line0 int) error {
 				}
 			case "loop":
 				n, err := strconv.Atoi(strings.TrimSpace(rc.text))
+				if strings.TrimSpace(rc.text) == "all" {
+					// `loop all`: the invariant of every loop of the function that has no spec of
+					// its own (ordinal 0)
+					n, err = 0, nil
+				}
 				if err != nil {
 					return fmt.Errorf("%s:%d: bad loop ordinal", file, rc.line)
 				}
